@@ -27,6 +27,13 @@ Theorem C15_ctx_has_its_share : forall ops, map c_output (ctxs (run ops)) = exec
 Proof. exact ctx_has_its_share. Qed.
 Print Assumptions C15_ctx_has_its_share.
 
+(* position = identity of a record (get_context(id) indexes the history): the record at position k is the k-th execution since
+   the history was last cleared *)
+Theorem C15_record_lookup_by_position :
+  forall ops k, nth_error (map c_output (ctxs (run ops))) k = nth_error (exec_texts ops) k.
+Proof. exact record_lookup_by_position. Qed.
+Print Assumptions C15_record_lookup_by_position.
+
 (* input() returns the queue first-in-first-out, each element consumed once, then the default "0" *)
 Theorem C15_inputs_fifo_once :
   forall s ins evs,
